@@ -87,3 +87,9 @@ def build(u):
         u.count('R-shim-call', n)
     # R-mono: verified for S = String (the only instantiation in the crate: rewrite_with_mapping passes a Vec<String>)
     emit_method(u, B, IMPL, 'strip_prefixes', 'builder::SourceMapBuilder::strip_prefixes', prep=prep_strip, sig_prep=lambda f: mono(f, u, 'S', r'AsRef<str>', 'String'))
+
+    # the builder's in-place setter
+    def prep_bset(f):
+        # R-assert-macro: `assert!(C, "msg")` -> `assert!(C)` is not needed: Verus reads the std macro; the message argument is dropped
+        u.count('R-fmt-msg', f.rewrite(r'assert!\((src_id != !0), "[^"]*"\);', r'assert!(\1);', expect=1))
+    emit_method(u, B, IMPL, 'set_source', 'builder::SourceMapBuilder::set_source', prep=prep_bset)
